@@ -183,6 +183,7 @@ def ensureW (c : Cfg) (d : Disk) (s : CSt) : Option (WSt × List FsOp) :=
 
 /-- `Write(batch)` (without the inline-compaction trigger, which is a separate action) -/
 def cWrite (c : Cfg) (mk : Mk) (d : Disk) (s : CSt) (items : List (Op × Nat)) : CSt × List FsOp :=
+  if items.isEmpty then (s, []) else   -- `if len(treasures) == 0 { return }`
   match ensureW c d s with
   | none => (s, [])
   | some (w, o0) =>
